@@ -24,7 +24,7 @@ PROFILE = S.profile(renames=0.6, dups=0.15, orders=["identity", "reverse", "perm
 @st.composite
 def cases(draw, tier="quick"):
     spec = draw(S.enum_specs(PROFILE))
-    cfg = draw(S.configs(spec, force=("names",), p_on=0.35))
+    cfg = draw(S.configs(spec, force=("names",), p_on=0.35, p_sorted=0.15))
     m = M.RefEnum(spec)
     hists = draw(st.lists(S.histories(m.n), min_size=1, max_size=3))
     return {"spec": spec, "cfg": cfg, "hists": hists, "seed": draw(st.integers(0, 2 ** 31))}
